@@ -74,6 +74,93 @@ def signed_fold_idiom(e, var):
     return None
 
 
+def _eval_int(e, env):
+    """value of a closed integer expression (names from env), or raise ValueError"""
+    if isinstance(e, ast.Constant) and isinstance(e.value, int) and not isinstance(e.value, bool):
+        return e.value
+    if isinstance(e, ast.Name) and e.id in env:
+        return env[e.id]
+    if isinstance(e, ast.UnaryOp) and isinstance(e.op, (ast.USub, ast.Invert, ast.UAdd)):
+        v = _eval_int(e.operand, env)
+        return -v if isinstance(e.op, ast.USub) else (~v if isinstance(e.op, ast.Invert) else v)
+    if isinstance(e, ast.BinOp):
+        a, b = _eval_int(e.left, env), _eval_int(e.right, env)
+        t = type(e.op)
+        if t in (ast.LShift, ast.Pow) and not 0 <= b <= 128:
+            raise ValueError
+        if t in (ast.FloorDiv, ast.Mod) and b == 0:
+            raise ValueError
+        ops = {ast.Add: lambda: a + b, ast.Sub: lambda: a - b, ast.Mult: lambda: a * b, ast.FloorDiv: lambda: a // b, ast.Mod: lambda: a % b, ast.BitAnd: lambda: a & b,
+               ast.BitOr: lambda: a | b, ast.BitXor: lambda: a ^ b, ast.LShift: lambda: a << b, ast.RShift: lambda: a >> b, ast.Pow: lambda: a ** b}
+        if t not in ops:
+            raise ValueError
+        return ops[t]()
+    if isinstance(e, ast.IfExp):
+        return _eval_int(e.body if _eval_truth(e.test, env) else e.orelse, env)
+    raise ValueError
+
+
+def _eval_truth(t, env):
+    if isinstance(t, ast.Compare) and len(t.ops) == 1:
+        a, b = _eval_int(t.left, env), _eval_int(t.comparators[0], env)
+        return {ast.Lt: a < b, ast.LtE: a <= b, ast.Gt: a > b, ast.GtE: a >= b, ast.Eq: a == b, ast.NotEq: a != b}[type(t.ops[0])]
+    if isinstance(t, ast.BoolOp):
+        vs = [_eval_truth(v, env) for v in t.values]
+        return all(vs) if isinstance(t.op, ast.And) else any(vs)
+    if isinstance(t, ast.UnaryOp) and isinstance(t.op, ast.Not):
+        return not _eval_truth(t.operand, env)
+    return bool(_eval_int(t, env))
+
+
+def _fold_on_samples(cfg, rd, ret, crc):
+    """(True, None) / (False, (unsigned, got, expected)) for the value returned by calc_hash as a function of the CRC; None if the
+    arithmetic between the crc32 call and the return is not closed integer arithmetic over single assignments."""
+    SAMPLES = [0, 1, 0x7FFFFFFF, 0x80000000, 0x80000001, 0xFFFFFFFF, 0x12345678, 0xDEADBEEF, 0xFFFFFFFE, 0x7FFFFFFE]
+
+    def expand(e, at, depth=0):
+        """replace single-assigned locals by their definitions until only the crc call is left"""
+        if depth > 8:
+            raise ValueError
+        class R(ast.NodeTransformer):
+            def visit_Call(self, c):
+                if any(c is x for x in crc):
+                    return ast.Name(id="__crc", ctx=ast.Load())
+                raise ValueError
+            def visit_Name(self, n):
+                ds = rd.at(at, n.id)
+                if len(ds) != 1 or ds[0].kind != "assign" or ds[0].index or ds[0].value is None:
+                    raise ValueError
+                return expand(ds[0].value, ds[0].node, depth + 1)
+        from ..inline import _clone
+        # clone, but keep identity of the crc call for the test above
+        if any(e is x for x in crc):
+            return ast.Name(id="__crc", ctx=ast.Load())
+        if isinstance(e, ast.Name):
+            return R().visit_Name(e)
+        new = type(e)()
+        for f in e._fields:
+            v = getattr(e, f, None)
+            if isinstance(v, list):
+                setattr(new, f, [expand(x, at, depth) if isinstance(x, ast.expr) else x for x in v])
+            elif isinstance(v, ast.expr):
+                setattr(new, f, expand(v, at, depth))
+            else:
+                setattr(new, f, v)
+        if isinstance(new, ast.Call):
+            raise ValueError
+        return new
+    try:
+        closed = expand(ret.ast.value, ret.id)
+        for u in SAMPLES:
+            got = _eval_int(closed, {"__crc": u})
+            exp = u - (1 << 32) if u >= (1 << 31) else u
+            if got != exp:
+                return False, (u, got, exp)
+        return True, None
+    except (ValueError, KeyError, RecursionError):
+        return None
+
+
 def rule_format_enum(repo: Repo, chk: Check, R: str):
     from .shared import return_paths, cond_polarity
     u = repo.mod("utils")
@@ -218,7 +305,22 @@ def run(repo: Repo, chk: Check):
             t_ = ps[0][0][0][0]
             body_, else_ = (ps[0][1], ps[1][1]) if ps[0][0][0][1] else (ps[1][1], ps[0][1])
             idiom = signed_fold_idiom(ast.IfExp(test=t_, body=body_, orelse=else_), norm(crc[0]))
-    chk.judge("R08.a", "utils:calc_hash:folded to signed 32 bit", idiom is not None,
+    witness = None
+    if idiom is None and crc and len(rets) == 1 and rets[0].ast.value is not None:
+        # not one of the listed idioms: evaluate the arithmetic on the boundary values of an unsigned 32-bit number
+        verdict = _fold_on_samples(cfg, rd, rets[0], crc)
+        if verdict is None:
+            chk.unresolved("R08.a", "utils:calc_hash:folded to signed 32 bit", "how the CRC is turned into the signed value could not be evaluated", where)
+            idiom = "?"
+        elif verdict[0]:
+            idiom = "evaluated on the boundary values 0, 2**31 - 1, 2**31, 2**32 - 1, ..."
+        else:
+            witness = verdict[1]
+    if idiom == "?":
+        pass
+    else:
+      chk.judge("R08.a", "utils:calc_hash:folded to signed 32 bit", idiom is not None,
+              (f"for the unsigned CRC {witness[0]:#x} calc_hash returns {witness[1]}, the signed 32-bit value is {witness[2]}: " if witness else "") +
               "the CRC is not folded to the signed 32-bit value by a recognised idiom ((v ^ 2**31) - 2**31, v - 2**32 if v >= 2**31 else v, "
               "c_int32, from_bytes(signed=True)) with the right constants: HASH(\"...\") would differ from the game's signed hash",
               {"idiom": idiom}, where)
@@ -360,12 +462,15 @@ def run(repo: Repo, chk: Check):
             sat = ds[0].node if len(ds) == 1 else ids[0]
         else:
             sat = ids[0]
-        ok_sp = isinstance(sexpr, ast.JoinedStr) and len(sexpr.values) == 3 and isinstance(sexpr.values[0], ast.Constant) and sexpr.values[0].value == prefix \
-            and isinstance(sexpr.values[1], ast.FormattedValue) and isinstance(sexpr.values[1].value, ast.Name) and isinstance(sexpr.values[2], ast.Constant) and sexpr.values[2].value == '")'
+        from .shared import string_parts
+        parts = string_parts(sexpr) if sexpr is not None else None
+        if parts is None:
+            raise AnalysisError(f"{fname}: how the symbolic spelling {norm(sexpr)[:60] if sexpr is not None else '?'} is built is not understood")
+        ok_sp = len(parts) == 3 and parts[0] == prefix and isinstance(parts[1], ast.Name) and parts[2] == '")'
         chk.judge("R08.c", f"types:{fname}:symbolic spelling is {prefix}<string>\")", ok_sp, f"the spelling handed over is {norm(sexpr) if sexpr is not None else '?'}", None, wf)
         if not ok_sp:
             continue
-        svar = sexpr.values[1].value.id
+        svar = parts[1].id
         sdefs = {id(d) for d in frd.at(sat, svar)}
         # the number: calc_hash(<svar>) / the accumulator of the loop over <svar>
         ok_num = False
@@ -408,6 +513,10 @@ def run(repo: Repo, chk: Check):
 
     from .c03 import r03k
     chk.guarded(r03k, repo, chk, "R08.i")
+    chk.rule("R08.j", "every symbolic spelling of the verbose mode (HASH(\"...\"), STR(\"...\")) is evaluated by constant folding to the number the "
+                      "compact mode prints: an expression over such a constant folds to the same value, and compiles, in both modes (shared with R03.m)", floor=2)
+    from .c03 import r03m
+    chk.guarded(r03m, repo, chk, "R08.j")
     # ------------------------------------------------------------ R08.h
     n_crc = 0
     for mn in ("utils", "types", "compile_pass", "generate_code", "compiler", "register_assignment", "symbols", "intrinsics"):
